@@ -197,6 +197,25 @@ func getCorpus(id int) *sCorpus {
 		}
 		c.Repos = append(c.Repos, r)
 	}
+	if id%3 == 0 {
+		// a repository whose documents are all empty (placeholders such as __init__.py):
+		// it gets a shard of its own with zero content bytes; only file-name, branch and
+		// repository atoms can match it
+		i := len(c.Repos)
+		tenantID := 1 + i%2
+		repo := zoekt.Repository{
+			ID: uint32(i + 1), Name: fmt.Sprintf("r%d", i), TenantID: tenantID,
+			URL:                  fmt.Sprintf("http://t%d.example/r%d", tenantID, i),
+			LineFragmentTemplate: fmt.Sprintf("#t%dr%dL{{.LineNumber}}", tenantID, i),
+			Metadata:             map[string]string{"k": "aa", "owner": "team0"},
+			RawConfig:            map[string]string{"priority": "5", "public": "1"},
+			Branches:             []zoekt.RepositoryBranch{{Name: "HEAD", Version: fmt.Sprintf("v%d-%d", id, i)}},
+		}
+		r := &sRepo{Repo: repo}
+		r.Docs = append(r.Docs, index.Document{Name: "dir0/f1_empty.txt", Content: []byte{}, Branches: []string{"HEAD"}},
+			index.Document{Name: "dir1/f2_empty.go", Content: []byte{}, Branches: []string{"HEAD"}})
+		c.Repos = append(c.Repos, r)
+	}
 	// layout
 	layout := rng.IntN(4)
 	// the shard images are shared between worker processes through the per-tree
